@@ -370,7 +370,9 @@ func runC18(e *Env) {
 				}
 			}
 		default: // type confusion
-			body = []byte(pick(r, []string{`{"age":"x"}`, `{"age":1e99}`, `{"tags":5}`, `[]`, `null`, `<bindA><age>x</age></bindA>`, `<a>`, `age=x`, `age=1&age=2&nums=a`, `%zz=1`, `name=%`, `a=1;b=2`, `{"name":`, `--x`, ``, `<?xml version="1.0"?><bindA><nums>z</nums></bindA>`}))
+			body = []byte(pick(r, []string{`{"age":"x"}`, `{"age":1e99}`, `{"tags":5}`, `[]`, `null`, `<bindA><age>x</age></bindA>`, `<a>`, `age=x`, `age=1&age=2&nums=a`, `%zz=1`, `name=%`, `a=1;b=2`, `{"name":`, `--x`, ``, `<?xml version="1.0"?><bindA><nums>z</nums></bindA>`,
+				// bracketed / dotted keys of the form decoder
+				`tags[-1]=x`, `tags[0]=a&tags[2]=c`, `tags[99999999]=x`, `nums[a]=1`, `tags[0][1]=x`, `name[x]=1`, `tags[=x`, `[0]=x`, `tags[]=x`, `tags]=x`, `nums[-2147483649]=1`, `tags.0=x`, `name.x=1`, `ok[0]=true`, `age[0]=1`, `tags[1`, `tags[1]x=y`}))
 		}
 		if ct.Kind == "multipart" && ctype == "multipart/form-data" {
 			ctype = pick(r, []string{"multipart/form-data; boundary=xyz", "multipart/form-data", "multipart/form-data; boundary=", "multipart/form-data; boundary", "multipart/form-data; boundary=xyz;;"})
@@ -379,7 +381,7 @@ func runC18(e *Env) {
 		t.AutoSample()
 		t.NonTrivial(fmt.Sprintf("%s|%s|%q", method, ctype, body))
 		req := NewReqBody(method, "/p", ctype, body)
-		req.URL.RawQuery = pick(r, []string{"", "age=x", "tags=1&tags=2", "%zz", "age=1"})
+		req.URL.RawQuery = pick(r, []string{"", "age=x", "tags=1&tags=2", "%zz", "age=1", "tags[-1]=x", "nums[-1]=3", "tags[1][2]=x", "name[0]=n", "tags[99999999]=x", "nums[]=1", "[1]=x"})
 		var got bindA
 		var err error
 		if pv, panicked := catch(func() { err = binding.Auto(req, &got) }); panicked {
